@@ -139,7 +139,10 @@ def parse_vspec(path, _seen=None):
             cursec = Section(parts[0], parts[1:], "", "%s:%d" % (path, ln))
             cur.sections.append(cursec)
         elif line.startswith("//@ "):
-            parts = shlex.split(line[4:])
+            if line[4:].startswith("open "):
+                parts = ["open", line[9:].strip()]  # raw text: an impl header may contain lifetimes ('a)
+            else:
+                parts = shlex.split(line[4:])
             if parts[0] == "include":
                 inc = os.path.join(CONTRACTS, parts[1])
                 dirs.extend(parse_vspec(inc, _seen))
